@@ -161,24 +161,29 @@ theorem flatSt_tsv : TSv flatSt.pop := by
 example : regenVal ((buildExpr flatFc flatE flatSt).2.pop ++ [Flat.Row.brk 0]) 9 (buildExpr flatFc flatE flatSt).1 = genExpr flatE :=
   regen_of_prebuild_values flatFc flatE flatSt (by decide) flatSt_symOK flatSt_tsv (by decide) _ 9 (by decide)
 
-/-- BODY level, for the sub-subset `coreB`: statement lists (any length) of return (with / without a `coreE` value),
-    assignment to a variable (first assignment declares the transient) or to an attribute with a `coreE` right-hand
-    side, break, continue, control stop, create with / without variable, select any|many from instances (with / without a `coreE` where clause over
-    `selected`, accepted in the O_OBJ scope, the variable declared after it), delete,
+/-- BODY level, for the sub-subset `coreB`: statement lists (any length) of return (with / without a `coreX` value),
+    assignment to a variable (first assignment declares the transient) or to an attribute with a `coreX` right-hand
+    side, break, continue, control stop, create with / without variable, select any|many from instances (with / without a
+    `coreX` where clause over `selected`, accepted in the O_OBJ scope, the variable declared after it), delete,
     relate / unrelate (+ using), and `while` loops, `for each` loops (loop variable visible or declared by the loop) and
-    `if` statements WITH any number of elif clauses and an optional else clause over such lists (nested to any depth: a new
+    `if` statements WITH any number of elif clauses and an optional else clause over such lists, all heads `coreX`
+    (nested to any depth: a new
     ACT_BLK per nested list, R608 / R605 / R607 / R658 / R606, its own R602 / R661 chain, an empty body included; every
     clause's own ACT_SMT lies in the block HOLDING the if, is chained nowhere and is skipped by the first-statement filter;
-    R682 / R683 navigate to exactly the clauses of that `if`, in creation order).  `self` (in a home that has one: the
+    R682 / R683 navigate to exactly the clauses of that `if`, in creation order).  `coreX` = `coreE` + `self` ANYWHERE in
+    the expression.  `self` (in a home that has one: the
     look-up creates V_VAR + V_INT in the innermost scope the first time the name is not visible) is covered as the instance
-    name of delete / relate / unrelate (+ using, any operand), as the returned value (`self`, `self.attr`) and as the
-    root of an assigned / a read attribute in an attribute assignment (`self.a = d.b; d.b = self.a;`: `coreX`); it is
-    NOT covered inside unary / binary operations, conditions, where clauses and as a declared name: reading the population
+    name of delete / relate / unrelate (+ using, any operand) and in every expression position of the subset: as a value
+    (`self == d`, `not_empty self`, `return self`), as the root of an assigned / a read attribute, inside unary / binary
+    operations of any depth (`self.a + 1`), in the right-hand side of an assignment to an attribute or to a (declared)
+    variable (`x = self.Age * 2;` — the builder's `plainE` guard is part of `flatOk`, so `x = self;` is outside), in the
+    heads of `while` / `if` / `elif` (installed in the block holding the statement) and in the where clause of a select
+    (installed in the clause's O_OBJ scope and dropped with it; its V_VAR / V_INT rows stay).  It is NOT covered as a
+    declared name (create / select / for each variable, the set of a for each, an assigned transient): reading the population
     `prebuildFlat` builds back with `regenFlat` (outer block R666, R602 first-statement filter, R603 subtype dispatch,
     R661 successor chain to its end, variables through the symbol table) prints `genTokens`.
     `flatOk`: the builder never failed (the flag is never set back: `okAll_of_flatOk`).
-    MISSING for the full `regen_of_prebuild`: `self` inside operations / conditions / where clauses, select related
-    (chains), invocations,
+    MISSING for the full `regen_of_prebuild`: select related (chains), invocations,
     event statements. -/
 theorem regen_of_prebuild_partial (fc : FCtx) (a : Block) (hc : coreB a = true) (hok : flatOk fc a = true) :
     regenFlat (prebuildFlat fc a) = genTokens a :=
